@@ -163,6 +163,37 @@ def mutex_storage(ctx, cg, f, mx, depth=0):
                             return "bad", "the mutex %s has automatic storage: every call locks its own mutex" % v["name"]
             return "bad", "the mutex %s is a parameter/local with automatic storage" % m["decl"]
         return "unknown", "unrecognised mutex object %s" % m["decl"]
+    u = ir.as_unop(m)
+    if u and u[0] == "*":
+        # *pointer: the pointer must be a static that is initialised by its declaration (thread-safe since C++11) - a pointer
+        # that is assigned later ("create on first use") lets two first callers each create and lock their own mutex
+        pn = ir.unwrap(u[1])
+        if isinstance(pn, dict) and pn.get("k") == "ref" and pn.get("decl", "").split(":", 1)[0] in ("local", "static"):
+            name = pn["decl"].split(":", 1)[1].split("::")[-1]
+            decl = None
+            assigned = []
+            for bid, i, e in f.all_elems():
+                x = e.get("expr")
+                if not isinstance(x, dict):
+                    continue
+                if x.get("k") == "decl":
+                    for v in x.get("vars", []):
+                        if v["name"] == name:
+                            decl = v
+                for n in walk(x):
+                    if n.get("k") == "bin" and n.get("op") == "=" and fmt(ir.unwrap(n["l"])) == name:
+                        assigned.append(n)
+            if decl is not None and decl.get("static"):
+                init = ir.unwrap(decl.get("init")) if decl.get("init") is not None else None
+                if assigned:
+                    return "bad", ("the mutex is reached through the static pointer `%s`, which is assigned after its declaration (line %s) without synchronisation: threads whose first call overlaps "
+                                   "each see a null pointer, each create a mutex and lock their own one" % (name, assigned[0].get("ln")))
+                if isinstance(init, dict) and init.get("k") == "new":
+                    return "ok", "static pointer %s initialised once by its declaration (never destroyed)" % name
+                return "unknown", "static pointer %s with initialiser %s" % (name, fmt(init))
+            if decl is not None:
+                return "bad", "the mutex is reached through the automatic pointer %s" % name
+        return "unknown", "mutex reached through %s" % fmt(m)
     if k == "member" and not m.get("method"):
         base = ir.unwrap(m.get("base"))
         if isinstance(base, dict) and base.get("k") == "this":
